@@ -440,3 +440,200 @@ func c13r3(rc *core.RC) {
 		}
 	}
 }
+
+// ---- C13.R6 indentation depth is always BaseIndent + code.Indent ----
+
+// combinedWithBase reports whether the use of expression `use` (an Opcode.Indent
+// read, a parameter or a local derived from one) inside fd is combined with
+// RuntimeContext.BaseIndent: in one additive expression with a BaseIndent read,
+// assigned into BaseIndent, passed to a parameter that is itself combined, or
+// defining a local all of whose uses are combined.
+func combinedWithBase(rc *core.RC, fd *ast.FuncDecl, use ast.Expr, depth int) (bool, string) {
+	p := rc.P
+	info := p.Info(fd)
+	path := core.PathTo(fd.Body, use)
+	if path == nil {
+		return false, "use not found"
+	}
+	isBase := func(e ast.Expr) bool {
+		found := false
+		ast.Inspect(e, func(n ast.Node) bool {
+			if sel, ok := n.(*ast.SelectorExpr); ok {
+				if f := core.FieldOf(info, sel); f != nil && f.Name() == "BaseIndent" {
+					found = true
+				}
+			}
+			return true
+		})
+		return found
+	}
+	// climb through arithmetic
+	i := len(path) - 1
+	var top ast.Expr = use
+	for i > 0 {
+		switch par := path[i-1].(type) {
+		case *ast.ParenExpr:
+			top = par
+		case *ast.BinaryExpr:
+			if par.Op != token.ADD && par.Op != token.SUB {
+				goto done
+			}
+			top = par
+		case *ast.CallExpr:
+			// conversion T(x)
+			if tv, ok := info.Types[par.Fun]; ok && tv.IsType() && len(par.Args) == 1 {
+				top = par
+			} else {
+				goto done
+			}
+		default:
+			goto done
+		}
+		i--
+	}
+done:
+	if isBase(top) {
+		return true, "added to BaseIndent"
+	}
+	if i == 0 {
+		return false, "expression " + core.Src(p.Fset, top) + " is not combined with BaseIndent"
+	}
+	switch par := path[i-1].(type) {
+	case *ast.AssignStmt:
+		for k, l := range par.Lhs {
+			if f := core.FieldOf(info, l); f != nil && f.Name() == "BaseIndent" {
+				return true, "assigned into BaseIndent"
+			}
+			// local definition: all its uses
+			if k < len(par.Rhs) && par.Rhs[k] == top {
+				obj := core.ObjOf(info, l)
+				if obj == nil || depth > 3 {
+					break
+				}
+				all, why := true, ""
+				n := 0
+				ast.Inspect(fd.Body, func(m ast.Node) bool {
+					id, ok := m.(*ast.Ident)
+					if !ok || info.Uses[id] != obj {
+						return true
+					}
+					n++
+					if ok2, w := combinedWithBase(rc, fd, id, depth+1); !ok2 {
+						all, why = false, w
+					}
+					return true
+				})
+				if n > 0 && all {
+					return true, "local whose every use is combined with BaseIndent"
+				}
+				if n == 0 {
+					return false, "value is dropped"
+				}
+				return false, why
+			}
+		}
+	case *ast.CallExpr:
+		idx := -1
+		for k, a := range par.Args {
+			if a == top {
+				idx = k
+			}
+		}
+		obj := calledIdent(info, par)
+		var cd *ast.FuncDecl
+		switch o := obj.(type) {
+		case *types.Func:
+			cd = p.DeclOf(o)
+		case *types.Var:
+			for short, pth := range core.PkgPaths {
+				if o.Pkg() != nil && pth == o.Pkg().Path() {
+					cd, _ = vmAlias(rc, short, o.Name())
+				}
+			}
+		}
+		if cd == nil || cd.Body == nil || idx < 0 || depth > 3 {
+			return false, "passed to " + core.Src(p.Fset, par.Fun) + ", which cannot be inspected"
+		}
+		cinfo := p.Info(cd)
+		var prm types.Object
+		k := 0
+		for _, f := range cd.Type.Params.List {
+			for _, nm := range f.Names {
+				if k == idx {
+					prm = cinfo.Defs[nm]
+				}
+				k++
+			}
+		}
+		if prm == nil {
+			return false, "parameter not found"
+		}
+		all, why, n := true, "", 0
+		ast.Inspect(cd.Body, func(m ast.Node) bool {
+			id, ok := m.(*ast.Ident)
+			if !ok || cinfo.Uses[id] != prm {
+				return true
+			}
+			n++
+			if ok2, w := combinedWithBase(rc, cd, id, depth+1); !ok2 {
+				all, why = false, w
+			}
+			return true
+		})
+		if n > 0 && all {
+			return true, "passed to " + p.FuncName(cd) + ", which adds BaseIndent"
+		}
+		return false, "passed to " + p.FuncName(cd) + ": " + why
+	}
+	return false, "expression " + core.Src(p.Fset, top) + " is used without BaseIndent"
+}
+
+func c13r6(rc *core.RC) {
+	p := rc.P
+	n := 0
+	compileFiles := map[string]bool{"code.go": true, "compiler.go": true, "opcode.go": true, "compiler_norace.go": true, "compiler_race.go": true}
+	for _, short := range append([]string{"encoder"}, core.VMPkgs...) {
+		for _, fd := range p.Funcs(short) {
+			if fd.Body == nil || (short == "encoder" && compileFiles[p.FileBase(fd.Pos())]) {
+				continue
+			}
+			info := p.Info(fd)
+			// reads of Opcode.Indent (not writes)
+			lhs := map[ast.Expr]bool{}
+			ast.Inspect(fd.Body, func(m ast.Node) bool {
+				if as, ok := m.(*ast.AssignStmt); ok {
+					for _, l := range as.Lhs {
+						lhs[l] = true
+					}
+				}
+				return true
+			})
+			ast.Inspect(fd.Body, func(m ast.Node) bool {
+				sel, ok := m.(*ast.SelectorExpr)
+				if !ok || lhs[sel] {
+					return true
+				}
+				f := core.FieldOf(info, sel)
+				if f == nil || f.Name() != "Indent" {
+					return true
+				}
+				if nt, ok := info.Selections[sel].Recv().(*types.Pointer); !ok || !strings.HasSuffix(nt.Elem().String(), "encoder.Opcode") {
+					return true
+				}
+				n++
+				rc.Touch(p.FuncName(fd))
+				key := fmt.Sprintf("%s/indent-depth %s", p.FuncName(fd), core.Src(p.Fset, sel))
+				ok2, why := combinedWithBase(rc, fd, sel, 0)
+				if ok2 {
+					rc.OK(key, sel.Pos(), "%s", why)
+				} else {
+					rc.Bad(key, sel.Pos(), "the nesting depth of an opcode is relative to the enclosing interface/recursive frame; every other site adds ctx.BaseIndent, this one does not (%s): output is mis-indented when reached through interface{} or a recursive type", why)
+				}
+				return true
+			})
+		}
+	}
+	if n < 28 {
+		rc.Unknown("encoder/indent-depth-sites", token.NoPos, "found %d reads of Opcode.Indent outside the compiler (confirmed: 2 in encoder.go, 9+ per indent util, 3 per interpreter)", n)
+	}
+}
